@@ -27,6 +27,7 @@ func TestVerifC19FLP(t *testing.T) {
 			t.Fatalf("Encode: %v", err)
 		}
 		vlib.Eval(sub)
+		vlib.Class(sub, c19wb.ChunkClass(int(length), chunk))
 		n := int(length)
 		other := func(label string) int {
 			j := c19wb.IdxBiased(t, n-1, int(chunk), label)
